@@ -67,7 +67,10 @@ def extract(features="", repo=None, target_dir=None, verbose=False):
     out = os.path.join(CACHE, "facts", tag)
     meta = os.path.join(out, "meta.json")
     os.makedirs(os.path.join(CACHE, "facts"), exist_ok=True)
-    lock = open(os.path.join(CACHE, "extract.lock"), "w")
+    # one lock per cargo target directory: experiments on scratch copies may use their own (FV_TARGET_DIR) and run in parallel
+    tdir_ = target_dir or os.environ.get("FV_TARGET_DIR") or os.path.join(CACHE, "target" + ("-" + features if features else ""))
+    os.makedirs(os.path.dirname(tdir_) or ".", exist_ok=True)
+    lock = open(tdir_.rstrip("/") + ".lock", "w")
     fcntl.flock(lock, fcntl.LOCK_EX)
     try:
         if os.path.exists(meta):
@@ -80,7 +83,7 @@ def extract(features="", repo=None, target_dir=None, verbose=False):
         tmp = out + ".tmp%d" % os.getpid()
         shutil.rmtree(tmp, ignore_errors=True)
         os.makedirs(tmp)
-        tdir = target_dir or os.path.join(CACHE, "target" + ("-" + features if features else ""))
+        tdir = tdir_
         # cargo's freshness cache would skip the wrapper: force the member to be re-checked
         for fp in glob.glob(os.path.join(tdir, "debug", ".fingerprint", "falcon-*")):
             shutil.rmtree(fp, ignore_errors=True)
